@@ -299,7 +299,7 @@ class HttpParser:
         if for_proxy:
             assert self.host and self.port and self._url
             path = (
-                b'http' if not self._url.scheme else self._url.scheme +
+                (b'http' if not self._url.scheme else self._url.scheme) +
                 COLON + SLASH + SLASH +
                 self.host +
                 COLON +
